@@ -19,5 +19,5 @@ CONSTANTS
   CsvOther = 4
   Thaw = 600
   LeaseJusticeQuirk = FALSE
-INVARIANTS B_ErrAgree B_ConformCounters B_ConformChains B_ReloadOpens B_ConformShadowChains B_ConformTxLayer B_OraclesHold CCExists CCResolutions CCLocks CCEngine CCClaim CCAnchor CCWatcher CCFaults
+INVARIANTS B_ErrAgree CCExists CCResolutions CCLocks CCEngine CCClaim CCAnchor CCWatcher
 CHECK_DEADLOCK TRUE
